@@ -138,6 +138,35 @@ def model_witness(ctx):
     ctx.cov["model_with_defect_violates_property"] = out
 
 
+def tlaps_lemma(ctx):
+    """Thorough tier, informational: the unbounded forward-copy lemma (spec/CompactionLemma.tla) is re-proved with
+    TLAPS.  Never affects the exit code: the verdict comes from executions of the real code only."""
+    import re, shutil, subprocess, time
+    d = ctx.path("tlaps")
+    os.makedirs(d, exist_ok=True)
+    shutil.copy(os.path.join(lib.SPEC, "CompactionLemma.tla"), d)
+    t = time.time()
+    try:
+        r = subprocess.run(["tlapm", "--cleanfp", "CompactionLemma.tla"], cwd=d, stdout=subprocess.PIPE, stderr=subprocess.STDOUT,
+                           text=True, timeout=600)
+        m = re.search(r"All (\d+) obligations? proved", r.stdout)
+        f = re.search(r"(\d+)/(\d+) obligations failed", r.stdout)
+        if m:
+            res = {"status": "proved", "obligations": int(m.group(1)), "discharged": int(m.group(1))}
+        elif f:
+            res = {"status": "failed", "obligations": int(f.group(2)), "discharged": int(f.group(2)) - int(f.group(1))}
+        else:
+            res = {"status": "tlapm gave no summary", "tail": r.stdout[-300:]}
+    except Exception as ex:  # tool missing / timeout: informational only
+        res = {"status": f"not run: {ex}"}
+    res["wall_s"] = round(time.time() - t, 1)
+    res["checker_cmd"] = "tlapm --cleanfp spec/CompactionLemma.tla"
+    res["statement"] = ("compact_in_place with dest < src, any file length / buffer size / geometry: only [dest0, dest) is ever modified and "
+                        "dest < src, so no unread byte is overwritten; at the end [dest0, dest0+len) = original [src0, src0+len), rest untouched")
+    ctx.cov["tlaps_forward_copy_lemma"] = res
+    ctx.stage("tlaps", **{k: v for k, v in res.items() if k in ("status", "obligations", "discharged", "wall_s")})
+
+
 def replay(ctx, kd):
     obj = json.load(open(ctx.replay))
     prog = obj.get("program") or obj.get("witness", {}).get("program")
@@ -215,12 +244,12 @@ def run(ctx):
         return replay(ctx, kd)
     totals, seen = {}, set()
     if ctx.quick:
-        plan = [("seq", dict(Family='"seq"', N=5, K=3, Bufs="{1, 2, 3}", Geo=0)),
-                ("set", dict(Family='"set"', N=8, Bufs="{1, 2, 3}", Geo=1)),
-                ("plan", dict(Family='"plan"', MaxSeg=4, MaxUsed=4, SegSize=4))]
+        plan = [("seq", dict(Family='"seq"', N=6, K=3, Bufs="{1, 2, 3}", Geo=0)),
+                ("set", dict(Family='"set"', N=9, Bufs="{1, 2, 3}", Geo=1)),
+                ("plan", dict(Family='"plan"', MaxSeg=4, MaxUsed=5, SegSize=4))]
         nrand, narch = 900, 40
     else:
-        plan = [("seq", dict(Family='"seq"', N=6, K=3, Bufs="{1, 2, 3}", Geo=0)),
+        plan = [("seq", dict(Family='"seq"', N=7, K=3, Bufs="{1, 2, 3}", Geo=0)),
                 ("seq_big_units", dict(Family='"seq"', N=4, K=3, Bufs="{1, 2, 3}", Geo=1)),
                 ("set", dict(Family='"set"', N=10, Bufs="{1, 2, 3}", Geo=2)),
                 ("set_buf4", dict(Family='"set"', N=9, Bufs="{4}", Geo=2)),
@@ -234,6 +263,8 @@ def run(ctx):
         total += n
         distinct += dn
     model_witness(ctx)
+    if not ctx.quick:
+        tlaps_lemma(ctx)
     # seeded random programs: longer files, odd unit sizes, many buffer budgets, several compactions in a row,
     # byte-granular segment populations of up to 12 segments, and ArchiveManager::compact
     trace = ctx.path("trace_random.ndjson")
@@ -252,7 +283,14 @@ def run(ctx):
             s, e = lib.run_of_line(ls, i + 1)
             ctx.cov["samples"].append({"source": f"random seed={ctx.seed}", "trace": [json.loads(x) for x in ls[s:e]][:6]})
     judge_trace(ctx, trace, f"random seed={ctx.seed}", kd, totals)
-    selftest(ctx, trace, kd)
+    try:
+        selftest(ctx, trace, kd)
+    except lib.ToolError as ex:
+        # on a tree that already violates the property the self-test may find no clean event to corrupt;
+        # the verdict (exit 1) must not be turned into a tool error by that
+        if not ctx.violations:
+            raise
+        ctx.cov["binding_selftest"] = {"skipped": str(ex)}
     # anti-vacuity: the interesting branches were really exercised on the real code
     for k in ("compact_ok", "compact_refused", "moved_spans", "plans_nonempty", "arch"):
         if not totals.get(k):
